@@ -63,7 +63,7 @@ RandOf(j) == IF Len(E.rands) = 0 THEN OneX ELSE X(E.rands[((j - 1) % Len(E.rands
 MainOf(j) == ((j - 1) % E.width) + 1
 AuxConstraint(j, T, A, An) ==
     LET m == T[MainOf(j)]  r == RandOf(j)
-    IN  IF E.aux_degs[j] = 1 THEN SubX(An[j], AddX(A[j], MulX(r, m))) ELSE SubX(An[j], MulX(A[j], AddX(m, r)))
+    IN  IF E.aux_degs[j] = 1 THEN SubX(An[j], AddX(A[j], MulX(r, m))) ELSE SubX(An[j], MulX(A[j], PowX(AddX(m, r), E.aux_degs[j] - 1)))
 PrefixSum(c, s) == FoldLeft(LAMBDA acc, i : AddM(acc, E.trace[c][i]), 0, [i \in 1..s |-> i])
 AuxValue(j, s) == IF E.aux_degs[j] = 1 THEN ScaleX(RandOf(j), PrefixSum(MainOf(j), s)) ELSE OneX
 AuxRank(k) == Cardinality({m \in DOMAIN E.aux_asserts : LessKey(Key(E.aux_asserts[m]), Key(E.aux_asserts[k]))}) + 1
